@@ -1,5 +1,6 @@
 import GdslModel.Lemmas.Di
 import GdslModel.Lemmas.Un
+import GdslModel.Lemmas.Extra
 /-!
 # C03 — edge operations implement the multigraph contract
 
@@ -87,5 +88,18 @@ theorem Un.run_no_panic (ops : List (Op K E)) (op : Op K E) : (Un.step (Un.run o
 /-- non-vacuity of the `disconnect_found` hypotheses: parallel edges and a self-loop -/
 example : vals ((Di.run [Op.connect 0 0 7, .connect 0 1 1, .connect 0 1 2] : Store Nat Nat).get 0).out 1 = 1 :: [2] := by decide
 example : vals ((Un.run [Op.connect 0 0 7, .connect 1 0 1, .connect 0 1 2] : Store Nat Nat).get 0).inn 1 = 1 :: [] := by decide
+
+/-- "adds exactly one new edge" and "removes exactly one edge" together: connecting `u→v` where `u` had no
+    edge to `v` and disconnecting again returns the value given to `connect` and leaves every list of every
+    node exactly as it was (the two calls are inverse on a reachable store) -/
+theorem Di.connect_disconnect (s : Store K E) (h : Mirror s) (u v : K) (e : E)
+    (hn : vals (s.get u).out v = []) :
+    (Di.disconnect (connect s u v e) u v).2 = .val e ∧
+    ∀ w, ((Di.disconnect (connect s u v e) u v).1.get w).out = (s.get w).out ∧
+         ((Di.disconnect (connect s u v e) u v).1.get w).inn = (s.get w).inn :=
+  Di.connect_disconnect' s h u v e hn
+
+/-- non-vacuity: the hypothesis holds for a self-loop target on a reachable store with other edges -/
+example : vals ((Di.run [Op.connect 0 1 1, .connect 1 0 2] : Store Nat Nat).get 0).out 0 = [] := by decide
 
 end G
